@@ -216,7 +216,7 @@ class Stage:
     """one generator -> harness -> validator pass"""
     def __init__(self, name, gen, trace, mc=(), env=None, gen_workers=1, trace_env=None,
                  required=(), simulate=None, gen_timeout=1800, trace_timeout=3600, shards=1,
-                 executor=None, harness_bin=None, stop_on_violation=False, harness_env=None):
+                 executor=None, harness_bin=None, stop_on_violation=False, harness_env=None, adopt=()):
         self.name = name
         self.gen = gen              # (module, cfg)
         self.trace = trace          # (module, cfg)
@@ -233,6 +233,9 @@ class Stage:
         self.harness_bin = harness_bin      # alternative harness binary (C20: serde build)
         self.stop_on_violation = stop_on_violation
         self.harness_env = harness_env or {}    # e.g. HARNESS_THREADS=1 where the call order matters
+        # clauses of the shared validator that are named after another property but decide this one too
+        # (e.g. the Wilson root enclosure C02.root_lo is how C06 decides the normal quantile)
+        self.adopt = set(adopt)
 
 
 class Outcome:
@@ -409,7 +412,7 @@ def run_stage(st, prop, tier, seed, out, replay=None):
             except Exception:
                 pass
     for b in bads:
-        failed = [c for c in b["failed"] if c.startswith(prop + ".")]
+        failed = [c for c in b["failed"] if c.startswith(prop + ".") or c in st.adopt]
         if failed:
             ev = evs[b["id"]]
             members = [evs[i] for i in groups.get(group_of.get(b["id"]), [])] if group_of else [ev]
